@@ -1390,11 +1390,13 @@ int32_t jls_core_repair_fsr(struct jls_core_s * self, uint16_t signal_id) {
                  signal_info->track_fsr->data->data[0]);
         signal_info->track_fsr->data_length = signal_info->track_fsr->data->header.entry_count;
 
+        int64_t offset_next = self->chunk_cur.hdr.item_next;
+        jls_raw_seek_end(self->raw);  // any index & summary chunks are appended, never written over the data being read
         if (!skip_summary && jls_core_fsr_summary1(signal_info->track_fsr, offset)) {
             JLS_LOGW("could not create summary - repair may not work");
         }
         skip_summary = false;
-        offset = self->chunk_cur.hdr.item_next;
+        offset = offset_next;
     }
     jls_core_fsr_sample_buffer_free(signal_info->track_fsr);
 
